@@ -248,14 +248,16 @@ def litPieces (l : Lit) : Option (List Piece) :=
   | .Float64 => floatPieces l 11 52 "L"
   | .String => none
 
+/-- an `l`-suffixed literal whose digits do not fit in a signed 64-bit value is a lexer error (dc17362), and so is a
+`u`-suffixed one that does not fit in 32 bits (93e9a96) -/
+def litTooLarge (l : Lit) : Bool :=
+  (l.kind == .IntSigned64 && l.mag ≥ 2 ^ 63) || (l.kind == .IntUnsigned32 && l.mag ≥ 2 ^ 32)
+
 /-- the literal prints as exactly one token that reads back as itself -/
 def LitOk (l : Lit) : Bool :=
   match litPieces l with
-  | some [.t (.lit m) _] => m == l
+  | some [.t (.lit m) _] => m == l && !litTooLarge l
   | _ => false
-
-/-- an `l`-suffixed literal whose digits do not fit in a signed 64-bit value is a lexer error (dc17362) -/
-def litTooLarge (l : Lit) : Bool := l.kind == .IntSigned64 && l.mag ≥ 2 ^ 63
 
 /-! ## `format_subexpression` -/
 def Expr.prec : Expr → Nat
